@@ -572,7 +572,7 @@ class RouteMonitor(WireTracker):
                 continue
             # an application is configured per (realm, peer): a peer serves its own realm plus the application's additional realms
             if peer_i in a.get("peers", []) and realm in ({cfg["peers"][peer_i].get("realm", env.NODE_REALM)} | set(a.get("realms", []))):
-                if a.get("behaviour") == "raise":
+                if a.get("behaviour") in ("raise", "raise_notroutable"):
                     return ("deliver+error", ai, 5012)
                 return ("deliver", ai)
         return ("error", 3007)
